@@ -67,3 +67,30 @@ PROPS["C20"] = dict(
         R("C20.put", "kad", "TestC20Put", 1500, 60000),
     ],
 )
+
+PROPS["C17"] = dict(
+    level="exploration",
+    technique="property-based testing (rapid): round-trip, equality-vs-encoding and order-preservation relations over generated keys, wire forms, ids and texts; native fuzzing in thorough",
+    level_text="Generated algorithm identifiers, key bodies, alternative DER wire forms, peer ids and candidate texts are checked against round-trip / injectivity / order relations. Holds on everything generated.",
+    level_note="Algorithm identifiers are restricted to what DER and encoding/asn1's decoder can carry (first arc 0-2, second < 40 unless first is 2, arcs < 2^31). Cross-package equality of the two default fingerprinters is not asserted (they are different hash functions by design, each configurable).",
+    design_ref="4/C17",
+    assumptions=["object identifier arcs fit encoding/asn1's decoder (31 bits)", "p2pkeswarm and quicswarm default fingerprinters are different functions by design; only 'function of the key alone' is asserted for each"],
+    subs=[
+        R("C17.key_roundtrip", "codec", "TestC17KeyRoundTrip", 6000, 400000),
+        R("C17.wire_independence", "codec", "TestC17WireIndependence", 3000, 200000),
+        R("C17.peerid_text", "codec", "TestC17PeerIDText", 8000, 400000),
+    ],
+)
+
+PROPS["C16"] = dict(
+    level="exploration",
+    technique="property-based testing (rapid): marshal/parse round trip over generated and harvested addresses of every type and nesting; parse-marshal-parse stability on arbitrary text",
+    level_text="Generated addresses of every address type and nestings to depth 3, addresses harvested from live swarm stacks (local addresses and message sources/destinations), and arbitrary/mutated text are checked against the marshal-parse round-trip relation with structural equality. Holds on everything generated.",
+    level_note="Multi-transport scheme names are drawn from the URI scheme alphabet (non-empty, no '://'); harvested addresses are limited to what the sandbox's loopback interfaces produce.",
+    design_ref="4/C16",
+    assumptions=["multi-transport scheme names are non-empty and drawn from the URI scheme alphabet"],
+    subs=[
+        R("C16.generated", "codec", "TestC16Generated", 8000, 500000),
+        R("C16.arbitrary_text", "codec", "TestC16ArbitraryText", 8000, 500000),
+    ],
+)
